@@ -448,7 +448,11 @@ def run_job(spec):
             site_relevant(w, labs, ds, acc)
         elif site == "relevant_glob":
             # a literal base of two characters next to directories of one: `ab/x` and `a/`
-            site_relevant_glob(w, sorted(set(labs) | {x for x in labels(4) if len(x) == 4 and x[2] == "/"}), ds, acc)
+            # and a literal base two levels deep below directories of one: `a/b/x` and `a/`
+            chars = [c for c in ALPHA if c != "/"]
+            deep = {f"{x}/{y}/{z}" for x in chars for y in chars for z in chars if valid_label(f"{x}/{y}/{z}")}
+            site_relevant_glob(w, sorted(set(labs) | {x for x in labels(4) if len(x) == 4 and x[2] == "/"} | deep),
+                               ds, acc)
         elif site == "output":
             site_output_under(w, labs, ds, acc)
         elif site == "output1":
